@@ -489,6 +489,24 @@ def run_reuse(case, ctx, fmts, strip):
             exp = strip(model.model_of(doc))
             if l1 is None or l2 is None:
                 continue
+            if fmt == "XML":
+                # the low-level reader as well: one XMLReader reads the same text twice and then the edited one
+                from odml.tools.xmlparser import XMLReader
+                for lenient in (False, True):
+                    try:
+                        xr = XMLReader(ignore_errors=lenient, show_warnings=False)
+                        a, b, c = xr.from_string(first), xr.from_string(first), xr.from_string(second)
+                        fresh = XMLReader(ignore_errors=lenient, show_warnings=False).from_string(second)
+                    except Exception as exc:
+                        rec.violation("xml/instance-reuse/xmlreader-%s-raised-%s" % ("lenient" if lenient else "strict", type(exc).__name__),
+                                      str(exc)[:150], dict(case, reuse=fmt))
+                        continue
+                    if model.diff(model.model_of(a), model.model_of(b)):
+                        rec.violation("xml/instance-reuse/xmlreader-second-read-of-the-same-text-differs:%s" % model.diff(
+                            model.model_of(a), model.model_of(b))[0]["field"], "", dict(case, reuse=fmt))
+                    if model.diff(model.model_of(fresh), model.model_of(c)):
+                        rec.violation("xml/instance-reuse/xmlreader-differs-from-a-fresh-reader:%s" % model.diff(
+                            model.model_of(fresh), model.model_of(c))[0]["field"], "", dict(case, reuse=fmt))
             first_ok = not model.diff(m_first, strip(model.model_of(l1)))
             d = model.diff(exp, strip(model.model_of(l2)))
             if d and first_ok:
